@@ -5,7 +5,7 @@ composed with the static VPSC solver (`Model/VpscStatic.lean`, Props/C01Static),
 
   generateX/YConstraints  --gen_acyclic-->  acyclic constraint graph
      --static_totalOrder_topological-->  `Blocks::totalOrder` is a topological order (ranks)
-     --static_satisfy_total-->            `satisfy()` returns normally or throws (never out of fuel)
+     --static_satisfy_total / static_solve_total--> `satisfy()` / `solve()` return normally or throw (never out of fuel)
      --static_satisfy_post / static_solve_post (exit scan), read on the INPUT constraints (`run_eps_sat`)-->
                                           every generated constraint holds up to 1e-10 at the solver's output
      --eps_shift_feasible along the ranks--> an EXACTLY feasible placement within n·1e-10 (`run_shifted_sat`)
@@ -13,8 +13,8 @@ composed with the static VPSC solver (`Model/VpscStatic.lean`, Props/C01Static),
                                           separated by half the sum of its sizes minus n·1e-10.
 
 `static_removeoverlaps_{x,y}_separates` are conditional on a NORMAL RETURN of the solver: that the static
-solver never throws on an acyclic system is not proved (see Props/C01Static); for `satisfy()` the only
-alternative to a normal return is the throw of the exit scan.  Coordinates are the solver's `uval`
+solver never throws on an acyclic system is not proved (see Props/C01Static); the only alternative to a
+normal return is the throw of an exit scan (`static_removeoverlaps_{x,y}_solve`).  Coordinates are the solver's `uval`
 (= `Variable::position()` at unit scales, which is how `removeoverlaps` creates its variables).
 -/
 import AdaptaVerif.Props.C09
@@ -199,6 +199,50 @@ theorem static_removeoverlaps_y_satisfy (rs : Array Rect) (bx b : Rat) (rank : N
   · right
     refine ⟨s', pos, ret, h, fun i j hi hj hij hmeet => ?_⟩
     exact static_removeoverlaps_y_separates rs bx b rank inj evs hv hgood vs hrange false s' pos ret
+      (by simpa using h) i j hi hj hij hmeet
+  · exact Or.inl h
+
+/-- **static_removeoverlaps_y_solve**: the same dichotomy for `solve()`, which is what `removeoverlaps` calls:
+    on the vertical-pass constraints the static solver's `solve()` either throws `UnsatisfiedConstraint` (from
+    the exit scan of `satisfy` or of `refine`) or returns, and then every pair of rectangles that meets in x
+    is separated vertically (up to `n·1e-10`) — it never runs out of the model's fuel
+    (`static_solve_total`). -/
+theorem static_removeoverlaps_y_solve (rs : Array Rect) (bx b : Rat) (rank : Nat → Nat)
+    (inj : RankInjective rank) (evs : List Ev) (hv : ValidOrder (yAxis rs bx b) rs.size evs)
+    (hgood : GoodAxis (yAxis rs bx b) rs.size) (vs : Array (Rat × Rat × Rat))
+    (hrange : ∀ c ∈ generateYConstraints rs bx b rank evs, c.l < vs.size ∧ c.r < vs.size) :
+    (∃ s, (SSt.init vs (toVpsc (generateYConstraints rs bx b rank evs))).solve = (s, .threw)) ∨
+    (∃ s' pos ret, (SSt.init vs (toVpsc (generateYConstraints rs bx b rank evs))).solve = (s', .ok pos ret) ∧
+      ∀ i j, i < rs.size → j < rs.size → i ≠ j → ScanMeet (yAxis rs bx b) i j →
+        s'.st.uval i + ((rectAt rs i).height b + (rectAt rs j).height b) / 2 - (vs.size : Rat) / 10000000000
+            ≤ s'.st.uval j ∨
+        s'.st.uval j + ((rectAt rs i).height b + (rectAt rs j).height b) / 2 - (vs.size : Rat) / 10000000000
+            ≤ s'.st.uval i) := by
+  rcases AdaptaVerif.Props.C01Static.static_solve_total vs (toVpsc (generateYConstraints rs bx b rank evs))
+    (toVpsc_wf _ vs.size hrange) with ⟨s', pos, ret, h⟩ | h
+  · right
+    refine ⟨s', pos, ret, h, fun i j hi hj hij hmeet => ?_⟩
+    exact static_removeoverlaps_y_separates rs bx b rank inj evs hv hgood vs hrange true s' pos ret
+      (by simpa using h) i j hi hj hij hmeet
+  · exact Or.inl h
+
+/-- the same for the horizontal pass -/
+theorem static_removeoverlaps_x_solve (rs : Array Rect) (bx b : Rat) (rank : Nat → Nat)
+    (inj : RankInjective rank) (evs : List Ev) (hv : ValidOrder (xAxis rs bx b) rs.size evs)
+    (hgood : GoodAxis (xAxis rs bx b) rs.size) (vs : Array (Rat × Rat × Rat))
+    (hrange : ∀ c ∈ generateXConstraints rs bx b rank evs false, c.l < vs.size ∧ c.r < vs.size) :
+    (∃ s, (SSt.init vs (toVpsc (generateXConstraints rs bx b rank evs false))).solve = (s, .threw)) ∨
+    (∃ s' pos ret, (SSt.init vs (toVpsc (generateXConstraints rs bx b rank evs false))).solve = (s', .ok pos ret) ∧
+      ∀ i j, i < rs.size → j < rs.size → i ≠ j → ScanMeet (xAxis rs bx b) i j →
+        s'.st.uval i + ((rectAt rs i).width bx + (rectAt rs j).width bx) / 2 - (vs.size : Rat) / 10000000000
+            ≤ s'.st.uval j ∨
+        s'.st.uval j + ((rectAt rs i).width bx + (rectAt rs j).width bx) / 2 - (vs.size : Rat) / 10000000000
+            ≤ s'.st.uval i) := by
+  rcases AdaptaVerif.Props.C01Static.static_solve_total vs (toVpsc (generateXConstraints rs bx b rank evs false))
+    (toVpsc_wf _ vs.size hrange) with ⟨s', pos, ret, h⟩ | h
+  · right
+    refine ⟨s', pos, ret, h, fun i j hi hj hij hmeet => ?_⟩
+    exact static_removeoverlaps_x_separates rs bx b rank inj evs hv hgood vs hrange true s' pos ret
       (by simpa using h) i j hi hj hij hmeet
   · exact Or.inl h
 
